@@ -1,9 +1,9 @@
 """C10 metadata travels with exactly the data it describes (structural clauses)"""
-from ..rules import delivery, flow
+from ..rules import delivery, flow, failure
 from .common import declare
 
-RULES = ['META-PASS', 'META-FLAT', 'PAIRED-BUFFER', 'META-MEMBERS', 'FRESH-READ', 'STATE-PER-INSTANCE', 'FIFO-END', 'SWAP-ATOMIC']
-FLOORS = {'META-PASS': 8, 'META-FLAT': 20, 'PAIRED-BUFFER': 12}
+RULES = ['META-PASS', 'META-FLAT', 'PAIRED-BUFFER', 'META-MEMBERS', 'FRESH-READ', 'STATE-PER-INSTANCE', 'FIFO-END', 'SWAP-ATOMIC', 'FANOUT', 'SHARED-METADATA', 'FAILED-VALUE-EMITTED']
+FLOORS = {'META-PASS': 8, 'META-FLAT': 20, 'PAIRED-BUFFER': 12, 'SHARED-METADATA': 20, 'FANOUT': 4, 'FAILED-VALUE-EMITTED': 3}
 
 META = {
     'level': "Static metadata-flow analysis: nodes that buffer no metadata pass the unmodified metadata parameter (one-to-many "
@@ -19,7 +19,7 @@ META = {
 def run(ctx, R):
     R.explanation = 'Metadata flow through every node class of streamz.core, on every enumerated path.'
     R.not_decided = ['dictionary contents of metadata entries']
-    declare(R, {**flow.RULES, **delivery.RULES}, RULES, FLOORS)
+    declare(R, {**flow.RULES, **delivery.RULES, **failure.RULES}, RULES, FLOORS)
     core = [c for c in ctx.model.nodes if c.module.name == 'streamz.core']
     R.run(flow.check_meta_pass, ctx, R, core)
     R.run(flow.check_meta_flat, ctx, R, core)
@@ -30,6 +30,12 @@ def run(ctx, R):
     R.run(delivery.check_fifo_end, ctx, R, core)
     # a metadata buffer that is reset only after the emission loses / misattributes the metadata of elements that arrive meanwhile
     R.run(delivery.check_swap_atomic, ctx, R, core)
+    # the list every sibling receives is one object: nobody edits it
+    R.run(flow.check_shared_metadata, ctx, R, [ctx.model.stream] + core)
+    # a result whose computation failed is not sent on with the failed element's metadata
+    R.run(failure.check_failed_value_emitted, ctx, R, core)
+    # every sibling receives the metadata of the element it receives (Stream._emit's delivery loop)
+    R.run(delivery.check_fanout, ctx, R)
 
 
 META['level'] += ' FRESH-READ: the metadata (and data) an emission is built from is read after the last store into its container on the path.'
